@@ -1000,8 +1000,20 @@ Proof. cbv zeta. repeat split. Qed.
 
 (* ---------- tie: whatever behaviour the conformant Model reproduces satisfies the Spec ---------- *)
 From PV Require Import Gen.BindConsts Interp.BindCheck.
+Lemma sig_of_def_equiv f : ps_sig_of_def f = py_sig_of_def f.
+Proof.
+  unfold ps_sig_of_def, py_sig_of_def. f_equal.
+  induction (f_kwonly f) as [|[n d] r IH]; [reflexivity|]. cbn [map py_kwonly_of_def fst snd]. rewrite IH. destruct d; reflexivity.
+Qed.
+
+(* from the def statement: whatever the default expressions evaluate to (falsy values included) *)
+Theorem call_equiv_def cfg trig f items : all_off cfg -> sig_wf_b (py_sig_of_def f) = true ->
+  call_ps cfg trig (ps_sig_of_def f) items = call_spec trig (py_sig_of_def f) items.
+Proof. intros Hc Hs. rewrite sig_of_def_equiv. apply call_equiv; assumption. Qed.
+
 Lemma bcase_model_implies_spec c : bcase_model_ok dev_off c = true -> bcase_spec_ok c = true.
 Proof.
-  unfold bcase_model_ok, bcase_spec_ok. rewrite !andb_true_iff. intros [[Hs Hm] _].
-  rewrite <- (call_equiv dev_off TRIGGER_KWARGS (bc_sig c) (bc_items c)); [assumption|split; reflexivity|assumption].
+  unfold bcase_model_ok, bcase_spec_ok, bc_sig, bc_pysig. rewrite !andb_true_iff. intros [[Hs Hm] _].
+  rewrite sig_of_def_equiv in Hs, Hm.
+  rewrite <- (call_equiv dev_off TRIGGER_KWARGS (py_sig_of_def (bc_def c)) (bc_items c)); [assumption|split; reflexivity|assumption].
 Qed.
